@@ -2,8 +2,8 @@
    Props/C02.v are about (Model/C02Contents.v, Spec/C02Spec.v).  Request: (op args...).
    Extracted with ExtrOcamlBasic only. *)
 From Coq Require Import String.
-From PV Require Import Base.Bytes Base.Outcome Base.Prim Base.Fmt Base.Enum Spec.ElfGabi Spec.C02Spec
-     Gen.ElfLayouts Gen.PyFuns Model.C02Contents.
+From PV Require Import Base.Bytes Base.Outcome Base.Prim Base.Fmt Base.Enum Spec.ElfGabi Spec.C02Spec Spec.C02Hist
+     Gen.ElfLayouts Gen.PyFuns Model.C02Contents Model.C02Hist.
 Open Scope string_scope.
 
 Definition fval_of (s : sx) : fval := match s with SB b => VB b | _ => VZ (gI s) end.
@@ -47,12 +47,44 @@ Definition sx_shdr (s : sx) : shdr :=
 
 Definition sx_data (r : res (list Z)) : sx := sx_res SB r.
 
+(* ---- orders of observation on one section object: 0 compressed, 1 data_size, 2 data_alignment, 3 data() ---- *)
+Definition sx_sobs (s : sx) : sobs :=
+  let c := gI s in
+  if (c =? 0)%Z then OCompressed else if (c =? 1)%Z then OSize else if (c =? 2)%Z then OAlign else OData.
+Definition sx_sans (a : sans) : sx :=
+  match a with SBool b => sx_bool b | SInt v => SI v | SData d => sx_data d end.
+
+(* ---- histories on one ELFFile: (start kind) (next g) (close g) (all kind) (noise ...);
+        kind = (addr start size) | (segs) | (loads) ---- *)
+Definition sx_gkind (s : sx) : gkind :=
+  let l := gL s in
+  let t := gS (nthx 0 l) in
+  if t =? "addr" then KAddr (gI (nthx 1 l)) (gI (nthx 2 l))
+  else if t =? "loads" then KLoads else KSegs.
+Definition sx_eop (s : sx) : eop :=
+  let l := gL s in
+  let t := gS (nthx 0 l) in
+  if t =? "start" then EStart (sx_gkind (nthx 1 l))
+  else if t =? "next" then ENext (gnat (nthx 1 l))
+  else if t =? "close" then EClose (gnat (nthx 1 l))
+  else if t =? "all" then EAll (sx_gkind (nthx 1 l))
+  else ENoise (gI (nthx 1 l)).
+Definition sx_eans (a : eans) : sx :=
+  match a with
+  | AUnit => SS "unit"
+  | AItem i => SL [SS "item"; sx_ints i]
+  | AStop => SS "stop"
+  | AList l => SL [SS "list"; SL (map sx_ints l)]
+  | AErr e => sx_of_err e
+  | ANoGen => SS "nogen"
+  end.
+
 Definition dispatch (req : sx) : sx :=
   let l := gL req in
   let op := gS (nthx 0 l) in
   let a1 := nthx 1 l in let a2 := nthx 2 l in let a3 := nthx 3 l in let a4 := nthx 4 l in
   let a5 := nthx 5 l in let a6 := nthx 6 l in let a7 := nthx 7 l in let a8 := nthx 8 l in
-  let a9 := nthx 9 l in let a10 := nthx 10 l in let a11 := nthx 11 l in
+  let a9 := nthx 9 l in let a10 := nthx 10 l in let a11 := nthx 11 l in let a12 := nthx 12 l in
   (* ---- spec encoders ---- *)
   if op =? "enc" then SB (encode_layout (spec_layout (gS a1) (gbool a2) (gbool a3)) (map fval_of (gL a4)))
   else if op =? "fits" then sx_bool (fits_layout (spec_layout (gS a1) (gbool a2) (gbool a3)) (map fval_of (gL a4)))
@@ -71,6 +103,17 @@ Definition dispatch (req : sx) : sx :=
     | Ok s => sx_ok (SL [sx_bool (negb (compressed s =? 0)%Z); SI (data_size s); SI (data_alignment s);
                          sx_data (section_data (oracle_inflate a11) stream le is64 s)])
     end
+  else if op =? "sec_obs" then
+    (* as "sec", then (order...) each a list of observer codes: one FRESH object per order *)
+    let stream := gB a1 in let le := gbool a2 in let is64 := gbool a3 in
+    let h := mk_sheader (dec_enum (sh_type_table (gS a4)) (gI a5)) (gI a6) (gI a7) (gI a8) (gI a9) (gI a10) in
+    SL (map (fun order => sx_res (fun l => SL (map sx_sans l))
+                                 (sec_session (oracle_inflate a11) stream le is64 h (map sx_sobs (gL order))))
+            (gL a12))
+  else if op =? "elf_hist" then
+    (* stream le is64 machine phoff phentsize phnum (ops...) *)
+    SL (map sx_eans (elf_hist (mkEfile (gB a1) (gbool a2) (gbool a3) (p_type_table (gS a4)) (gI a5) (gI a6) (gI a7))
+                              (map sx_eop (gL a8))))
   else if op =? "get_string" then SB (get_string (gB a1) (gI a2) (gI a3))
   else if op =? "get_strings" then   (* stream sh_offset (offsets...) *)
     SL (map (fun o => SB (get_string (gB a1) (gI a2) (gI o))) (gL a3))
@@ -104,6 +147,21 @@ Definition dispatch (req : sx) : sx :=
         SL [SS "some"; sx_ok (SL [sx_bool c; SI sz; SI al;
                                   match d with Some b => sx_ok (SB b) | None => sx_of_err ECompress end])]
     end
+  else if op =? "spec_sec_obs" then
+    (* img le is64 sh_type sh_flags sh_offset sh_size sh_addralign oracle (order...) *)
+    match section_view (gB a1) (gbool a2) (gbool a3) (gI a4) (gI a5) (gI a6) (gI a7) (gI a8)
+                       (oracle_zs a9) (oracle_zp a9) with
+    | None => sx_none
+    | Some f =>
+        SL [SS "some"; SL (map (fun order => sx_ok (SL (map sx_sans (spec_sec_session f (map sx_sobs (gL order))))))
+                               (gL a10))]
+    end
+  else if op =? "spec_elf_hist" then
+    (* img le is64 phoff phentsize (phdrs...) (ops...) -> (wf, answers) *)
+    let phs := map sx_phdr (gL a6) in
+    SL [sx_bool (forallb (phdr_fits (gbool a2) (gbool a3)) phs
+                 && phdrs_at (gbool a2) (gbool a3) (gB a1) (gI a4) (gI a5) phs);
+        SL (map sx_eans (spec_elf_hist phs (map sx_eop (gL a7))))]
   else if op =? "spec_extent" then   (* img off size *)
     if extent_in_file (gB a1) (gI a2) (gI a3) then SL [SS "some"; SB (extent (gB a1) (gI a2) (gI a3))] else sx_none
   else if op =? "spec_string" then sx_opt SB (string_at (gB a1) (gI a2))
